@@ -285,6 +285,12 @@ func TestVerif_C03(t *testing.T) {
 					p.abort = true
 				}
 			}
+			if r.chance(10) {
+				// a target that refuses every recipient: its delivery is opened and stays empty
+				for d := 1; d <= nRcpt; d++ {
+					p.rcpt[d] = true
+				}
+			}
 			p.partial = r.chance(40)
 			w.plans[x] = p
 			var rl []string
